@@ -224,6 +224,16 @@ const startBound = 8 * time.Second
 func runC18(c c18Case) *Violation {
 	cfg, env := c.build()
 	in, err := gwproc.Start(cfg, gwproc.StartOpts{Env: env, Wait: startBound})
+	for try := 0; err == nil && try < 4; try++ {
+		// the port is picked here (it is part of the configuration under test): if another process took it between the
+		// probe and the child's bind, that says nothing about the configuration - try again with another port
+		if ex, _ := in.Exited(); !ex || !strings.Contains(in.Stderr(), "address already in use") {
+			break
+		}
+		in.Remove()
+		cfg, env = c.build()
+		in, err = gwproc.Start(cfg, gwproc.StartOpts{Env: env, Wait: startBound})
+	}
 	if err != nil {
 		return viol("infra", "%v", err)
 	}
